@@ -359,7 +359,7 @@ fn run_adi0(c: &CandleStream, st: &mut Stats) -> CaseResult {
 pub fn def(tier: Tier) -> PropertyDef {
 	let mut checks: Vec<Box<dyn SubCheck>> = Vec::new();
 	let max_len = tier.pick(512usize, 2048);
-	let cases = tier.pick(12000u32, 40000);
+	let cases = tier.pick(12000u32, 300000);
 	for spec in specs() {
 		let name = spec.name;
 		let max_n = spec.max_n;
